@@ -3,7 +3,7 @@ CONSTANTS
   Unit = 10
   MaxU = 2147483647
   MaxS = 2147483647
-  Protocol = TRUE
+  Protocol = FALSE
   CfgIds = {1, 2, 3, 4, 5, 6}
   MaxDepth = 40
   Sample = 1
